@@ -590,12 +590,16 @@ static void red_run(uint64_t idx, bool) {
            "%s; %s",
            nm.c_str(), S::str(v4).c_str(), S::str(id0).c_str(), in.c_str());
     par(2, 0);
+    // the read-out happens in a "serial phase": the active-thread count is
+    // lowered between the parallel region and reduce() (and restored below);
+    // partial values of every thread that ran must still be merged
+    galois::setActiveThreads(1);
     typename S::Snap v5 = S::snap(r1.reduce());
     typename S::Snap v6 = S::snap(r2.reduce());
     if (have && (!(v5 == want) || !(v6 == want)))
       fail(nm + ":reuse-after-reset-wrong-value",
-           "%s: after reset and the same updates again reduce() = %s / %s, "
-           "sequential fold = %s; %s",
+           "%s: after reset and the same updates again reduce() (called with "
+           "1 active thread) = %s / %s, sequential fold = %s; %s",
            nm.c_str(), S::str(v5).c_str(), S::str(v6).c_str(),
            S::str(want).c_str(), in.c_str());
     if (!have && (!(v5 == v1) || !(v6 == v1)))
@@ -607,6 +611,7 @@ static void red_run(uint64_t idx, bool) {
     if (!(v7 == v6))
       fail(nm + ":reduce-twice-differs", "%s: reduce() = %s then %s; %s",
            nm.c_str(), S::str(v6).c_str(), S::str(v7).c_str(), in.c_str());
+    galois::setActiveThreads(g_threads);
   }
   if (S::live() != live0)
     fail(nm + ":value-instances-leaked-or-destroyed-twice",
